@@ -80,6 +80,9 @@ def place(case, pts2):
     s = pl["scale"]
     L = float(np.max(np.linalg.norm(P[:, None] - P[None], axis=-1)))
     t = np.array([pl["shift"][0], pl["shift"][1], 0.0]) * L * s
+    if "abs" in pl:
+        # absolute (dyadic) shift: "any centre offset" - 2^27 sizes away the coordinates are still exact to 3e-8
+        t = np.array([pl["abs"][0], pl["abs"][1], 0.0])
     return (P @ R.T) * s + t, s, R, t
 
 
